@@ -386,6 +386,8 @@ func (v *Env) eval(x Expr) *Val {
 			// identical(a, b): identical values (SMT equality; for floats: the same IEEE datum, NaN included, +0 and -0 distinct)
 			a, b := v.eval(x.Args[0]), v.eval(x.Args[1])
 			return &Val{typ: tBool, c: []string{v.equal(a, b)}}
+		case "ValidUTF8":
+			return v.e.ufTerm("spec.ValidUTF8", []*Val{v.eval(x.Args[0])}, tBool)
 		case "HasDotSegment":
 			return v.e.ufTerm("spec.HasDotSegment", []*Val{v.eval(x.Args[0])}, tBool)
 		case "Index":
@@ -491,6 +493,39 @@ func (v *Env) eval(x Expr) *Val {
 			}
 			f := e.declareFun("implements!"+ts.S, "(Int) Bool")
 			return &Val{typ: tBool, c: []string{and(not(eq(a.c[0], "0")), app(f, a.c[0]))}}
+		case "dynImplements":
+			// dynImplements(x, "pkg.Iface[K]"): x is a value of type-parameter type; any(x) would pass a type switch
+			// case for that interface (same uninterpreted tag function and predicate as the encoding of the switch)
+			a := v.eval(x.Args[0])
+			ts, ok := x.Args[1].(*EStr)
+			if !ok || len(a.c) != 1 {
+				panic("contract: dynImplements(x, \"pkg.Iface\") with x of type-parameter type")
+			}
+			tag := app(e.declareFun("tparam!tag", "(Int) Int"), a.c[0])
+			f := e.declareFun("implements!"+ts.S, "(Int) Bool")
+			return &Val{typ: tBool, c: []string{and(not(eq(tag, "0")), app(f, tag))}}
+		case "tparamImplements":
+			// tparamImplements("K", "pkg.Iface[K]"): the type argument bound to type parameter K implements the interface
+			// (the same uninterpreted predicate a type switch on any(x), x of type K, consults)
+			tn, ok1 := x.Args[0].(*EStr)
+			ts, ok2 := x.Args[1].(*EStr)
+			if !ok1 || !ok2 {
+				panic("contract: tparamImplements(\"K\", \"pkg.Iface\")")
+			}
+			var tp *types.TypeParam
+			for fn := e.fn; fn != nil && tp == nil; fn = fn.Parent() {
+				tps := fn.TypeParams()
+				for i := 0; i < tps.Len(); i++ {
+					if tps.At(i).Obj().Name() == tn.S {
+						tp = tps.At(i)
+					}
+				}
+			}
+			if tp == nil {
+				panic("contract: no type parameter " + tn.S)
+			}
+			f := e.declareFun("implements!"+ts.S, "(Int) Bool")
+			return &Val{typ: tBool, c: []string{app(f, e.typeTag(tp))}}
 		case "hdr":
 			// hdr(h, "Key"): what h.Get("Key") returns in this state
 			h, k := v.eval(x.Args[0]), v.eval(x.Args[1])
@@ -740,6 +775,9 @@ func (v *Env) eval(x Expr) *Val {
 			}
 			if x.Op == "!=" {
 				return &Val{typ: tBool, c: []string{not(app("fp.eq", l.c[0], r.c[0]))}}
+			}
+			if op, ok := map[string]string{"+": "fp.add", "-": "fp.sub", "*": "fp.mul", "/": "fp.div"}[x.Op]; ok {
+				return &Val{typ: ft, c: []string{app(op, "RNE", l.c[0], r.c[0])}}
 			}
 		}
 		switch x.Op {
